@@ -163,6 +163,7 @@ import (
 	"fmt"
 	"strconv"
 	"strings"
+	"unicode"
 )
 
 const eof rune = -1
@@ -325,7 +326,8 @@ func (sys System) possibleVersionString(str string) bool {
 		default:
 			// PyPI doesn't require punctuation, so 1a0 is legal.
 			// The charset is limited, though, and set in pep440.go.
-			if sys == PyPI && i > 0 && strings.ContainsRune(lettersInPyPI, c) {
+			// (PEP 440 versions are case insensitive: 1A1 is 1a1.)
+			if sys == PyPI && i > 0 && strings.ContainsRune(lettersInPyPI, unicode.ToLower(c)) {
 				continue
 			}
 			return false
